@@ -58,3 +58,45 @@ pub fn ok_unwrap_constant() -> i64 {
 pub fn ok_propagate_user_number(s: &str) -> Result<i64, String> {
     s.parse::<i64>().map_err(|e| e.to_string())
 }
+
+// ---- parallel-array indexing (C05 R5c)
+pub fn bad_parallel_index(names: &Vec<String>, values: &Vec<i64>) -> Vec<(String, i64)> {
+    let mut out = Vec::new();
+    for i in 0..names.len() {
+        out.push((names[i].clone(), values[i]));
+    }
+    out
+}
+
+pub fn bad_parallel_index_slice(names: &[String], values: &[i64]) -> i64 {
+    let mut t = 0;
+    let mut i = 0;
+    while i < names.len() {
+        t += values[i];
+        i += 1;
+    }
+    t
+}
+
+pub fn ok_same_vec_index(values: &Vec<i64>) -> i64 {
+    let mut t = 0;
+    for i in 0..values.len() {
+        t += values[i];
+    }
+    t
+}
+
+pub fn ok_parallel_index_checked(names: &Vec<String>, values: &Vec<i64>) -> Result<i64, String> {
+    if names.len() != values.len() {
+        return Err("length mismatch".to_string());
+    }
+    let mut t = 0;
+    for i in 0..names.len() {
+        t += values[i];
+    }
+    Ok(t)
+}
+
+pub fn ok_parallel_zip(names: &Vec<String>, values: &Vec<i64>) -> Vec<(String, i64)> {
+    names.iter().cloned().zip(values.iter().copied()).collect()
+}
